@@ -25,3 +25,36 @@ func init() {
 		},
 	})
 }
+
+func init() {
+	def := func(pd *propDef) { props[pd.id] = pd }
+	stdAssume := []string{
+		"go/ssa and go/types model the program faithfully; callees are resolved by type information (static callee or CHA/VTA call graph)",
+	}
+	def(&propDef{
+		id: "C02", title: "No untrusted packet can crash or wedge an interceptor",
+		explanation: "Decides structural necessary clauses over every function of the library: F1 every index into a slice taken from a received RTCP/RTP value (field of a parsed pion/rtcp|rtp struct, []*rtcp.X parameter, packet bytes of an entry point) by a counter is dominated — on every feasible path class — by a comparison of the index with that slice's length, and s[len(s)-c] by a test of len(s); " +
+			"F2 every copy into a fixed-size pooled buffer is bounded by guards whose constants fit the buffer including the destination offset (or the buffer is re-allocated to the source length), and re-slices of pooled buffers use lengths derived from the buffer; F3 two-sided slices have ordered bounds (or the MarshalSize-of-a-header-parsed-from-the-same-bytes idiom) and length-relative bounds are tested; " +
+			"F4 results of Attributes.GetRTPHeader/GetRTCPPackets, rtcp.Unmarshal and pion/rtp Unmarshal are used only on the success branch of their error; A4 read buffers are used only as buffer[:n]; D3 no blocking send/receive on an internal channel on an API path without a close-channel case or default (no wedge).",
+		notDecided:  "crash-freedom itself: panics whose absence rests on arithmetic invariants (ring/bitmap indices seq%size, packetArrivalTimeMap capacity arithmetic, flexfec XOR lengths and constant header offsets), nil dereferences, panics inside pion/rtp and pion/rtcp, termination of loops (all loops over untrusted counts are bounded by 16-bit fields; not checked mechanically), one-sided slices s[n:] whose bound a callee computed",
+		sels:        []sel{s("F1"), s("F2"), s("F3"), s("F4"), s("A4"), s("D3")},
+		assumptions: append([]string{"comparisons are credited as guards whatever their direction/strictness (a missing guard is detected, an off-by-one in a present guard is not, except for constant guards of pooled-buffer copies where the arithmetic is checked)", "two evaluations of a condition built only from parameters and constants agree (path classes are split on such conditions)"}, stdAssume...),
+	})
+	def(&propDef{
+		id: "C10", title: "Interceptors are free of data races under every permitted concurrent use",
+		explanation: "Decides a lock discipline over the whole library: C1 every access to a field of the frozen guard table (≈100 fields of 25 lock-bearing types, confirmed by reading; DESIGN.md App. A) on an object that may be shared happens with the guarding mutex held — exclusively for writes, including writes through deep fields (map elements, pointees, mutating method calls) — using per-function must-hold locksets, entry locksets propagated from static call sites, synchronous-literal inheritance and pruning of infeasible !ok branches of typed containers; " +
+			"C2 state declared goroutine-confined is only accessed in functions reachable (call graph) from its owner goroutine's entry; C3 fields used with sync/atomic are only used with sync/atomic; C4 every other field of a lock-bearing type is never stored to on a shared object outside constructors/option closures (setup-time setters listed); " +
+			"C5 the held→acquired lock graph is acyclic, no mutex is re-acquired while held on the same object, and no WaitGroup.Wait/blocking channel operation happens under a lock its counterpart can need; D4 the close of each lifecycle channel and the isClosed/Add/go start sequence run under the same mutex.",
+		notDecided:  "races on memory the table does not name (fields of pion/rtp, pion/rtcp, x/time/rate objects; the Attributes map handed to packetdump's logger goroutine), lost updates that are not data races, liveness, stalls while a private lock is held across a downstream Write (noted, not a violation)",
+		sels:        []sel{s("C1"), s("C2"), s("C3"), s("C4"), s("C5"), s("D4")},
+		assumptions: append([]string{"locks are identified by (struct type, field): two instances of one type are not distinguished", "the guard table and confinement table are hand-confirmed; every row must resolve to at least one access or the check fails", "exported methods are entry points with an empty lockset"}, stdAssume...),
+	})
+	def(&propDef{
+		id: "C11", title: "Lifecycle: Close and Unbind stop activity and never strand a caller",
+		explanation: "Decides for every go statement, goroutine loop, API-path channel operation, lifecycle channel and per-stream container: D1 each goroutine is dominated by WaitGroup.Add on a field of its owner, its entry defers Done, the owner's Close reaches Wait on every path; D2 every blocking loop in a goroutine has a select case on (or ranges over) a channel that a Close method closes, and that case leaves the loop; " +
+			"D3 every send/receive on an internal channel in a function reachable from the API sits in a select with a close-channel case or a default; D4 close(lifecycle) and the start sequence share a mutex; D5 every container keyed by StreamInfo.SSRC that Bind{Local,Remote}Stream fills is emptied by the Unbind of the same direction and binding installs fresh state; D6 Bind starts a goroutine only on the not-closed branch of a closed test.",
+		notDecided:  "wall-clock promptness; goroutines blocked inside a user-supplied writer; that nothing is written after Close returns when the goroutine is accounted but slow; double Close",
+		sels:        []sel{s("D1"), s("D2"), s("D3"), s("D4"), s("D5"), s("D6")},
+		assumptions: append([]string{"channels are identified by the struct fields / make sites they flow through (parameters resolved through static call sites)", "only closes executed from a Close method count as shutdown signals"}, stdAssume...),
+	})
+}
